@@ -66,7 +66,16 @@ func corpus() []*Spec {
 		sK("type", 0, "Integer[1,3]"), sK("type", 0, "String"), sK("type", 0, "Array[String]"), sK("type", 0, "Hash[String,Integer]"),
 		sK("type", 0, "Optional[Integer]"), sK("type", 0, "Variant[Integer,String]"), sK("type", 0, "Struct[{a=>Integer}]"), sK("type", 0, "Enum['a','b']"),
 		sK("type", 0, "Tuple[Integer,String]"), sK("type", 0, "Type[Integer]"), sK("type", 0, "Timespan"), sK("type", 0, "Sensitive[String]"), sK("type", 0, "Any"),
-		sK("objtype", 0, "My::Pt"), sK("objtype", 0, "My::Wrap"), sK("alias", 0, "My::Ints"), sK("alias", 0, "My::Tree"),
+		// types whose text form carries bounds written from Go values (sizes, instants, durations), and a
+		// parameterized Object type (regressions bc3de91, 23a1573, ebbcc60, b9bb9d1)
+		sTy("String[1,2]"), sTy("String[1]"), sTy("String[2,2]"), sTy("Array[String[1,2]]"),
+		sTy("Timestamp['2000-01-01T00:00:00.000 UTC', '2001-01-01T00:00:00.5 UTC']"), sTy("Timestamp['2000-01-01T00:00:00.000 UTC']"),
+		sTy("Timestamp[default, '2001-01-01T00:00:00.000 UTC']"), sTy("Timespan[{hours => 1}, {hours => 2}]"), sTy("Timespan[{hours => 1}]"),
+		sTy("Timespan[default, {hours => -2, nanoseconds => 1}]"), sTy("Timespan[1, 2]"), sTy("Float[1.5]"), sTy("Float[default, 2.0]"), sTy("Integer[default, 3]"),
+		sTy("Enum['a', 'b c']"), sTy("Pattern[/a/, /b.c/]"), sTy("Regexp[/a.b/]"), sTy("SemVer['1.x']"), sTy("SemVerRange"), sTy("Collection[1,2]"), sTy("URI"),
+		sTy("Boolean[true]"), sTy("NotUndef[String]"), sTy("Iterable[String]"), sTy("Callable[[String],Integer]"), sTy("TypeReference['X::Y']"),
+		sTy("My::Par[3]"), sTy("Array[My::Par[3]]"), sArr(0, sK("type", 13, "My::Par[3]"), sOT("My::Par"), sK("type", 13, "My::Par[3]")),
+		sK("objtype", 0, "My::Pt"), sK("objtype", 0, "My::Wrap"), sK("objtype", 0, "My::Par"), sK("alias", 0, "My::Ints"), sK("alias", 0, "My::Tree"),
 		pt(), sObj(0, "My::Pt", sInt(3), sInt(4)), sObj(0, "My::Pt", sInt(3), sInt(0), sStr("t")), sObj(0, "My::Wrap", sArr(0, sInt(1))),
 		sObj(0, "My::Wrap", sInt(1), pt()), sObj(0, "My::Wrap", sObj(0, "My::Wrap", s1()), sK("objtype", 0, "My::Pt")),
 		// non-string keys (complex keys capability)
@@ -255,7 +264,9 @@ var semverRanges = []string{">=1.0.0 <2.0.0", "1.x", "~1.2.3", "^1.2", ">1.0.0",
 var uris = []string{"http://example.com/a?b=c#d", "file:///tmp/x", "urn:isbn:0451450523", "mailto:a@b.c", "//host/path", "relative/path", "http://user:pw@host:8080/p%20q"}
 var regexps = []string{"a.*b", "", "^[a-z]+$", "a/b", `\d+`, "(?i)x", "[[:alpha:]]"}
 var typeExprs = []string{"Integer[1,3]", "Integer", "String", "Array[String]", "Hash[String,Integer]", "Optional[Integer]", "Variant[Integer,String]",
-	"Struct[{a=>Integer}]", "Enum['a','b']", "Tuple[Integer,String]", "Type[Integer]", "Timespan", "Sensitive[String]", "Float[1.0,2.0]", "Any", "Binary", "Array[Hash[String,Array[Integer]],1,3]"}
+	"Struct[{a=>Integer}]", "Enum['a','b']", "Tuple[Integer,String]", "Type[Integer]", "Timespan", "Sensitive[String]", "Float[1.0,2.0]", "Any", "Binary", "Array[Hash[String,Array[Integer]],1,3]",
+	"String[1,2]", "String[3]", "Hash[String[1],String[2,2]]", "Timestamp['2000-01-01T00:00:00.000 UTC', '2001-01-01T00:00:00.5 UTC']", "Timestamp[default, '1999-12-31T23:59:59.999999999 UTC']",
+	"Timespan[{hours => 1}, {hours => 2}]", "Timespan[{seconds => -1, nanoseconds => 5}]", "Optional[Timespan[1, 2]]", "Pattern[/a/]", "Regexp[/a.b/]", "SemVer['1.x']", "Collection[1,2]"}
 
 func (g *gen) id() int { g.nextId++; return g.nextId }
 
